@@ -11,6 +11,9 @@ use std::collections::HashMap;
 use std::net::SocketAddr;
 use std::slice::Iter;
 
+/// The largest message a Quake server sends (`MAX_MSGLEN` of Quake 3).
+const PACKET_SIZE: usize = 16_384;
+
 pub trait QuakeClient {
     type Player;
 
@@ -43,7 +46,8 @@ fn get_data_impl<Client: QuakeClient>(socket: &mut UdpSocket) -> GDResult<Vec<u8
         .concat(),
     )?;
 
-    let data = socket.receive(None)?;
+    // A status reply lists every player, the default buffer size would cut it short
+    let data = socket.receive(Some(PACKET_SIZE))?;
     let mut bufferer = Buffer::<LittleEndian>::new(&data);
 
     if bufferer.read::<u32>()? != u32::MAX {
